@@ -141,7 +141,8 @@ class GhostList(object):
         if self.kind == 'real':
             self.last = real('%s_last%s' % (self.name, tag))
         else:
-            self.last = Vec(('elem', '%s_last%s' % (self.name, tag)))
+            proto = getattr(self, 'proto', None)
+            self.last = proto.sym_havoc('%s_last' % self.name, tag) if proto is not None else Vec(('elem', '%s_last%s' % (self.name, tag)))
             interp.path.log.append(('append', self.name, self.last.oid))
 
     def sym_getattr(self, interp, name):
@@ -183,6 +184,8 @@ class LenOf(object):
 def havoc_value(name, v, tag):
     """fresh symbol of the same sort as v"""
     v = pysym._unwrap0(v)
+    if hasattr(v, 'sym_havoc'):
+        return v.sym_havoc(name, tag)
     if isinstance(v, bool):
         return Cond('atom', '%s%s' % (name, tag))
     if isinstance(v, Cond):
